@@ -65,7 +65,14 @@ HasDel(s, d, v) == Pos(s.deleg[d][v])
 PayIfDel(s, d, v) == IF HasDel(s, d, v) THEN PayRewards(s, d, v) ELSE s
 
 AllValSeq(s) == [i \in 1..Cardinality(Vals(s)) |-> ValName(i - 1)]
-StakeTypes == {"delegate", "undelegate", "redelegate", "cancel", "ibc"}   \* grant types ("ibc": ICS-20 transfer over channel-0)
+\* grant types; ICS-20: "ibc" / "ibc1" = spend limit of the allocation for transfer/channel-0 / channel-1 of the signer's
+\* transfer authorization, "ibcx" = the authorization itself ("yes" | "none" | "expired")
+StakeTypes == {"delegate", "undelegate", "redelegate", "cancel", "ibc", "ibc1", "ibcx"}
+IbcFamily == {"ibcApprove", "ibcRevoke", "ibcIncrease", "ibcDecrease"}
+ChanType(o) == IF o.val = 0 THEN "ibc" ELSE "ibc1"
+\* "empty": the allocation exists but holds no limit for the denomination (an allowance decreased to exactly zero)
+Numeric(x) == x \notin {"none", "unl", "expired", "other", "yes", "empty"}
+Lim(x) == IF x = MaxUint256 THEN "unl" ELSE x      \* the sentinel 2^256-1 means "unlimited"
 TypeOf(m) == CASE m = "delegate" -> "delegate" [] m = "undelegate" -> "undelegate"
                [] m = "redelegate" -> "redelegate" [] m = "cancelUnbonding" -> "cancel" [] m = "ibcTransfer" -> "ibc" [] OTHER -> "-"
 ApproveTypes == {"delegate", "undelegate"}    \* the types the harness passes to approve/revoke
@@ -116,6 +123,22 @@ Effect(s, o, x, c, g, operOf) ==
            LET e == Named(o.grantee, c) IN
            [s EXCEPT !.grants[g][e] = [t \in DOMAIN @ |-> IF t \in ApproveTypes /\ @[t] \notin {"none", "unl", "expired", "other"}
                                           THEN BigSub(@[t], o.amt) ELSE @[t]]]
+      \* ICS-20 authorization methods (granter = the signer, grantee named): approve replaces the authorization by one
+      \* allocation for channel-0; increase / decrease move the limit of one allocation; revoke deletes everything
+      [] o.m = "ibcApprove" ->
+           LET e == Named(o.grantee, c) IN
+           [s EXCEPT !.grants[g][e] = [@ EXCEPT !["ibc"] = IF o.amt = MaxUint256 THEN "unl" ELSE o.amt, !["ibc1"] = "none", !["ibcx"] = "yes"],
+                     !.grantVals[g][e] = [@ EXCEPT !["ibc"] = <<"channel-0">>]]
+      [] o.m = "ibcRevoke" ->
+           LET e == Named(o.grantee, c) IN
+           [s EXCEPT !.grants[g][e] = [@ EXCEPT !["ibc"] = "none", !["ibc1"] = "none", !["ibcx"] = "none"]]
+      [] o.m = "ibcIncrease" ->
+           LET e == Named(o.grantee, c) t == ChanType(o) IN
+           [s EXCEPT !.grants[g][e][t] = IF Numeric(@) THEN Lim(BigAdd(@, o.amt)) ELSE @]
+      [] o.m = "ibcDecrease" ->
+           LET e == Named(o.grantee, c) t == ChanType(o) IN
+           [s EXCEPT !.grants[g][e][t] = IF @ = "unl" THEN BigSub(MaxUint256, o.amt)
+                                         ELSE IF Numeric(@) THEN (IF BigEq(@, o.amt) THEN "empty" ELSE BigSub(@, o.amt)) ELSE @]
       [] OTHER -> s
 
 StakeSpend   == {"delegate", "undelegate", "redelegate", "cancelUnbonding"}
@@ -132,7 +155,7 @@ AuthProblems(s, o, x, c, g) ==
               gr == IF c \in DOMAIN s.grants[g] THEN s.grants[g][c][t] ELSE "none"
               vs == IF c \in DOMAIN s.grantVals[g] THEN s.grantVals[g][c][t] ELSE <<>>
               vdst == IF o.m = "ibcTransfer" THEN "channel-0" ELSE IF o.m = "redelegate" THEN ValName(o.val2) ELSE ValName(o.val) IN
-          IF gr \in {"none", "expired", "other"} THEN {"spend-without-live-grant"}
+          IF gr \in {"none", "expired", "other", "empty"} THEN {"spend-without-live-grant"}
           ELSE IF gr # "unl" /\ BigLT(gr, o.amt) THEN {"grant-overspent"}
           ELSE IF \A j \in 1..Len(vs) : vs[j] # vdst THEN {"grant-does-not-cover-validator"} ELSE {}
      ELSE {})
@@ -141,8 +164,11 @@ AuthProblems(s, o, x, c, g) ==
 SpendGrant(s, o, c, g) ==
     IF o.m \in SpendMethods /\ c # g /\ c \in DOMAIN s.grants[g]
     THEN LET t == TypeOf(o.m) gr == s.grants[g][c][t] IN
-         IF gr \in {"none", "unl", "expired", "other"} THEN s
-         ELSE [s EXCEPT !.grants[g][c][t] = IF BigEq(gr, o.amt) THEN "none" ELSE BigSub(gr, o.amt)]
+         IF gr \in {"none", "unl", "expired", "other", "empty"} THEN s
+         ELSE LET s1 == [s EXCEPT !.grants[g][c][t] = IF BigEq(gr, o.amt) THEN "none" ELSE BigSub(gr, o.amt)] IN
+              \* a transfer authorization whose last allocation is used up is deleted
+              IF t = "ibc" /\ s1.grants[g][c]["ibc"] = "none" /\ s1.grants[g][c]["ibc1"] = "none"
+              THEN [s1 EXCEPT !.grants[g][c]["ibcx"] = "none"] ELSE s1
     ELSE s
 
 \* the Cosmos-side fields a method writes
@@ -318,7 +344,7 @@ CodeAccepts(s, o, x, c, g, operOf) ==
       [] o.m = "ibcTransfer" ->
            /\ (x = c \/ x = g) /\ Pos(o.amt) /\ BigLE(o.amt, s.bank[x])
            /\ (c = g \/ (c \in DOMAIN s.grants[g] /\
-                 LET gr == s.grants[g][c]["ibc"] IN gr = "unl" \/ (gr \notin {"none", "expired", "other"} /\ BigLE(o.amt, gr))))
+                 LET gr == s.grants[g][c]["ibc"] IN gr = "unl" \/ (gr \notin {"none", "expired", "other", "empty"} /\ BigLE(o.amt, gr))))
       [] o.m \in {"withdrawRewards"} -> (x = c \/ x = g) /\ HasDel(s, x, ValName(o.val))
       [] o.m \in {"claimRewards", "setWithdrawAddress"} -> (x = c \/ x = g)
       [] o.m = "withdrawCommission" -> (x = c \/ x = g) /\ x \in DOMAIN operOf /\ Pos(s.commission[operOf[x]])
@@ -346,6 +372,23 @@ MApprove(s, o, c, g) ==
         r1 == ApproveStep(s, o, g, e, ApproveOrder[1])
         r2 == IF r1.ok THEN ApproveStep(r1.s, o, g, e, ApproveOrder[2]) ELSE r1
     IN IF e = g \/ e \notin DOMAIN s.grants[g] THEN [s |-> s, ok |-> FALSE] ELSE r2
+
+\* precompiles/ics20/approve_common.go, one authorization object per (granter, grantee)
+MIbc(s, o, c, g) ==
+    LET e   == Named(o.grantee, c)
+        t   == ChanType(o)
+        cur == s.grants[g][e][t]
+        live == s.grants[g][e]["ibcx"] = "yes"
+        set(v) == [s EXCEPT !.grants[g][e][t] = v]
+    IN IF e = g \/ e \notin DOMAIN s.grants[g] THEN [s |-> s, ok |-> FALSE]
+       ELSE CASE o.m = "ibcApprove" -> [s |-> Effect(s, o, c, c, g, <<>>), ok |-> TRUE]
+              [] o.m = "ibcRevoke"  -> IF live THEN [s |-> Effect(s, o, c, c, g, <<>>), ok |-> TRUE] ELSE [s |-> s, ok |-> FALSE]
+              \* an unlimited allocation holds the sentinel 2^256-1: adding overflows (refused), subtracting turns it into a number
+              [] o.m = "ibcIncrease" -> IF live /\ Numeric(cur) /\ BigLE(BigAdd(cur, o.amt), MaxUint256) THEN [s |-> set(Lim(BigAdd(cur, o.amt))), ok |-> TRUE] ELSE [s |-> s, ok |-> FALSE]
+              [] o.m = "ibcDecrease" -> IF live /\ cur = "unl" THEN [s |-> set(BigSub(MaxUint256, o.amt)), ok |-> TRUE]
+                                        ELSE IF live /\ Numeric(cur) /\ BigLE(o.amt, cur)
+                                        THEN [s |-> set(IF BigEq(cur, o.amt) THEN "empty" ELSE BigSub(cur, o.amt)), ok |-> TRUE]
+                                        ELSE [s |-> s, ok |-> FALSE]
 
 LateAuthzFailure(s, o, c, g) ==
     /\ o.m \in StakeSpend /\ c # g /\ c \in DOMAIN s.grantVals[g]
@@ -389,8 +432,8 @@ MOp(ms, self, o, g, operOf, root) ==
                     ELSE [ms |-> IF "no_cosmos_revert" \in Defects
                                  THEN [m0 EXCEPT !.s.mods["evm"] = BigAdd(@, o.value), !.s.supply = BigAdd(@, o.value), !.nflush = @ + 1]
                                  ELSE m0, ok |-> FALSE])
-              ELSE IF o.m \in ApproveFamily
-              THEN LET ra == MApprove(m1.s, o, self, g) IN
+              ELSE IF o.m \in ApproveFamily \cup IbcFamily
+              THEN LET ra == IF o.m \in IbcFamily THEN MIbc(m1.s, o, self, g) ELSE MApprove(m1.s, o, self, g) IN
                    IF ra.ok THEN [ms |-> [m1 EXCEPT !.s = ra.s], ok |-> TRUE]
                    ELSE [ms |-> IF "no_cosmos_revert" \in Defects THEN [m1 EXCEPT !.s = ra.s] ELSE m0, ok |-> FALSE]
               \* the StateDB is flushed before the precompile looks at its arguments: a refused call has
